@@ -406,7 +406,7 @@ func ClientRun(osenv *rsyncos.Env, opts *rsyncopts.Options, conn io.ReadWriter, 
 		if err != nil {
 			return nil, fmt.Errorf("OpenRoot(dest=%s): %v", rt.Dest, err)
 		}
-		defer rt.DestRoot.Close()
+		defer rt.CloseWhenDone(rt.DestRoot)
 		if osenv.Restrict() {
 			if err := restrict.MaybeFileSystem(nil, []string{rt.Dest}); err != nil {
 				return nil, fmt.Errorf("landlock: %v", err)
